@@ -48,6 +48,8 @@ def gen_params(r: random.Random, *, max_einsums=3, small=True, want_multi=False)
     }
     # some specs take their energies from the top-level `variables` section (expressions in the
     # architecture are evaluated against it), so that "the same arch text" can mean different costs
+    p["persistent_weights"] = r.random() < 0.2   # weights stay resident across Einsums
+    p["glb_bits"] = r.choice([None, None, None, 4, 16])  # per-memory bits_per_value override
     p["use_vars"] = r.random() < 0.35
     if r.random() < 0.2:
         p["mapper"] = {"tiling_coarseness": r.choice([2, 4])}
@@ -61,12 +63,13 @@ def workload_yaml(p) -> str:
         L.append(f"    n{i}: 0 <= n{i} < {N[i]}")
     L += [f"  bits_per_value: {{All: {p['bits']}}}", "  einsums:"]
     kind = p["kind"]
+    pers = ", persistent: True" if p.get("persistent_weights") else ""
     for i in range(n):
         if kind == "shared_input" and i >= 1:
             # Einsum i reads the same input T0 as Einsum 0 with its own weights
             L += [f"  - name: Matmul{i}", "    tensor_accesses:",
                   "    - {name: T0, projection: [m, n0]}",
-                  f"    - {{name: W{i}, projection: [n0, n{i + 1}]}}",
+                  f"    - {{name: W{i}, projection: [n0, n{i + 1}]{pers}}}",
                   f"    - {{name: T{i + 1}, projection: [m, n{i + 1}], output: True}}"]
         elif kind == "chain_copy" and i == n - 1:
             L += [f"  - name: Matmul{i}", "    tensor_accesses:",
@@ -75,7 +78,7 @@ def workload_yaml(p) -> str:
         else:
             L += [f"  - name: Matmul{i}", "    tensor_accesses:",
                   f"    - {{name: T{i}, projection: [m, n{i}]}}",
-                  f"    - {{name: W{i}, projection: [n{i}, n{i + 1}]}}",
+                  f"    - {{name: W{i}, projection: [n{i}, n{i + 1}]{pers}}}",
                   f"    - {{name: T{i + 1}, projection: [m, n{i + 1}], output: True}}"]
     return "\n".join(L) + "\n"
 
@@ -98,6 +101,8 @@ def arch_yaml(p) -> str:
         L.append("    tensors: {may_keep: All}")
     else:
         L.append(f"    tensors: {{keep: {p['glb_keep']}, may_keep: All}}")
+    if p.get("glb_bits"):
+        L.append(f"    bits_per_value: {{All: {p['glb_bits']}}}")
     if p["fanout"] > 1 and p["fanout_at"] == "glb":
         L += ["    spatial:", f"    - {{name: X, fanout: {p['fanout']}}}"]
     L += ["    actions:",
